@@ -192,8 +192,22 @@ func main() {
 	for {
 		line, err := in.ReadBytes('\n')
 		if len(bytes.TrimSpace(line)) > 0 {
+			var probe struct {
+				Mode string `json:"mode"`
+			}
+			json.Unmarshal(line, &probe)
 			var c Case
-			if jerr := json.Unmarshal(line, &c); jerr != nil {
+			if probe.Mode == "hostile" {
+				var hc HostileCase
+				if jerr := json.Unmarshal(line, &hc); jerr != nil {
+					fmt.Fprintln(out, `{"name":"?","note":"bad-case"}`)
+				} else {
+					r := runHostile(hc)
+					b, _ := json.Marshal(r)
+					out.Write(b)
+					out.WriteByte('\n')
+				}
+			} else if jerr := json.Unmarshal(line, &c); jerr != nil {
 				fmt.Fprintln(out, `{"name":"?","note":"bad-case"}`)
 			} else {
 				r := runCase(c)
